@@ -13,8 +13,8 @@ package stream
 //@ func incNonce
 //@   loop 1 unroll
 //@   requires#nowrap ctr(nonce) != MAXCTR                        [C14]
-//@   ensures#ctr ctr(nonce) == old(ctr(nonce)) + 1               [C02 C05 C06]
-//@   ensures#flag nonce[11] == old(nonce[11])                    [C02 C05 C06]
+//@   ensures#ctr ctr(nonce) == old(ctr(nonce)) + 1               [C01 C02 C05 C06]
+//@   ensures#flag nonce[11] == old(nonce[11])                    [C01 C02 C05 C06]
 //@   ensures#range (forall j in 0..12 :: 0 <= old(nonce[j]) && old(nonce[j]) <= 255) ==> (forall j in 0..12 :: 0 <= nonce[j] && nonce[j] <= 255)
 //@   modifies *nonce
 
@@ -63,11 +63,11 @@ package stream
 //@   ensures#noeof err != io.EOF                                                                             [C02 C13]
 //@   ensures#srcerr (lasterr("io.ReadFull",1) != nil && lasterr("io.ReadFull",1) != io.EOF && lasterr("io.ReadFull",1) != io.ErrUnexpectedEOF) ==> err == lasterr("io.ReadFull",1)   [C13]
 //@   ensures#srceof lasterr("io.ReadFull",1) == io.EOF ==> err == io.ErrUnexpectedEOF                        [C02 C13]
-//@   ensures#shape err == nil ==> (len(old(r.src.$rem)) - len(r.src.$rem) == ECS || (len(old(r.src.$rem)) - len(r.src.$rem) < ECS && len(r.src.$rem) == 0)) && len(old(r.src.$rem)) - len(r.src.$rem) >= 16   [C02 C12]
-//@   ensures#short err == nil && len(old(r.src.$rem)) - len(r.src.$rem) < ECS ==> last                       [C02]
-//@   ensures#emptyfirst err == nil && len(old(r.src.$rem)) - len(r.src.$rem) == 16 ==> old(ctr(r.nonce)) == 0 && old(r.nonce[11]) == 0   [C02]
-//@   ensures#auth err == nil ==> openok(r.a.$key, nonceOf(old(ctr(r.nonce)), (last ? 1 : 0)), sub(old(r.src.$rem), 0, len(old(r.src.$rem)) - len(r.src.$rem)))   [C01 C02 C05]
-//@   ensures#plain err == nil ==> bytes(r.unread) == open(r.a.$key, nonceOf(old(ctr(r.nonce)), (last ? 1 : 0)), sub(old(r.src.$rem), 0, len(old(r.src.$rem)) - len(r.src.$rem)))   [C01 C02 C05]
+//@   ensures#shape err == nil ==> (len(old(r.src.$rem)) - len(r.src.$rem) == ECS || (len(old(r.src.$rem)) - len(r.src.$rem) < ECS && len(r.src.$rem) == 0)) && len(old(r.src.$rem)) - len(r.src.$rem) >= 16   [C01 C02 C12]
+//@   ensures#short err == nil && len(old(r.src.$rem)) - len(r.src.$rem) < ECS ==> last                       [C01 C02 C12]
+//@   ensures#emptyfirst err == nil && len(old(r.src.$rem)) - len(r.src.$rem) == 16 ==> old(ctr(r.nonce)) == 0 && old(r.nonce[11]) == 0   [C02 C05]
+//@   ensures#auth err == nil ==> openok(r.a.$key, nonceOf(old(ctr(r.nonce)), (last ? 1 : 0)), sub(old(r.src.$rem), 0, len(old(r.src.$rem)) - len(r.src.$rem)))   [C01 C02 C05 C12]
+//@   ensures#plain err == nil ==> bytes(r.unread) == open(r.a.$key, nonceOf(old(ctr(r.nonce)), (last ? 1 : 0)), sub(old(r.src.$rem), 0, len(old(r.src.$rem)) - len(r.src.$rem)))   [C01 C02 C05 C12]
 //@   ensures#notlast err == nil && !last ==> !openok(r.a.$key, nonceOf(old(ctr(r.nonce)), 1), sub(old(r.src.$rem), 0, ECS)) || openok(r.a.$key, nonceOf(old(ctr(r.nonce)), 0), sub(old(r.src.$rem), 0, ECS))   [C02]
 //@   ensures#acceptsfull (old(r.src.$reliable) && len(old(r.src.$rem)) >= ECS && openok(r.a.$key, nonceOf(old(ctr(r.nonce)), 0), sub(old(r.src.$rem), 0, ECS))) ==> err == nil && !last   [C01 C05 C12]
 //@   ensures#acceptsfullfinal (old(r.src.$reliable) && len(old(r.src.$rem)) >= ECS && !openok(r.a.$key, nonceOf(old(ctr(r.nonce)), 0), sub(old(r.src.$rem), 0, ECS)) && openok(r.a.$key, nonceOf(old(ctr(r.nonce)), 1), sub(old(r.src.$rem), 0, ECS))) ==> err == nil && last   [C01 C05 C12]
@@ -91,12 +91,12 @@ package stream
 //@   ensures#bufdata len(old(r.unread)) > 0 ==> sub(bytes(p), 0, n) == sub(old(bytes(r.unread)), 0, n)                     [C01 C02 C12]
 //@   ensures#bufrest len(old(r.unread)) > 0 ==> bytes(r.unread) == sub(old(bytes(r.unread)), n, len(old(r.unread)))         [C01 C02 C12]
 //@   ensures#consume len(old(r.src.$rem)) - len(r.src.$rem) <= ECS + 1 && len(old(r.src.$rem)) >= len(r.src.$rem)         [C12]
-//@   ensures#eof (r.err == io.EOF && old(r.err) == nil) ==> len(r.src.$rem) == 0 && len(old(r.src.$rem)) <= ECS              [C02 C12]
+//@   ensures#eof (r.err == io.EOF && old(r.err) == nil) ==> len(r.src.$rem) == 0 && len(old(r.src.$rem)) <= ECS              [C01 C02 C05 C12]
 //@   ensures#noeofontrunc (old(r.err) == nil && len(old(r.unread)) == 0 && len(p) > 0 && len(old(r.src.$rem)) == 0) ==> err != nil && err != io.EOF   [C02 C13]
 //@   ensures#fresh (old(r.err) == nil && len(old(r.unread)) == 0 && len(p) > 0 && err == nil) ==> n <= len(p) && sub(bytes(p), 0, n) == sub(open(r.a.$key, nonceOf(old(ctr(r.nonce)), r.nonce[11]), sub(old(r.src.$rem), 0, min(ECS, len(old(r.src.$rem))))), 0, n)   [C01 C02 C12]
 //@   ensures#rest (old(r.err) == nil && len(old(r.unread)) == 0 && len(p) > 0 && err == nil) ==> bytes(r.unread) == sub(open(r.a.$key, nonceOf(old(ctr(r.nonce)), r.nonce[11]), sub(old(r.src.$rem), 0, min(ECS, len(old(r.src.$rem))))), n, len(sub(old(r.src.$rem), 0, min(ECS, len(old(r.src.$rem))))) - 16)   [C01 C02 C12]
-//@   ensures#counter (old(r.err) == nil && len(old(r.unread)) == 0 && len(p) > 0 && err == nil) ==> ctr(r.nonce) == old(ctr(r.nonce)) + 1    [C02 C06]
-//@   ensures#final (old(r.err) == nil && r.err != nil && err == nil) ==> r.nonce[11] == 1                                  [C02]
+//@   ensures#counter (old(r.err) == nil && len(old(r.unread)) == 0 && len(p) > 0 && err == nil) ==> ctr(r.nonce) == old(ctr(r.nonce)) + 1    [C01 C02 C05 C06]
+//@   ensures#final (old(r.err) == nil && r.err != nil && err == nil) ==> r.nonce[11] == 1                                  [C01 C02 C05]
 //@   modifies r.unread, r.buf, r.nonce, r.err, r.src.$rem, p[:]
 
 //@ pred winv(w) := rg(w.unwritten) == rg(w.buf) && off(w.unwritten) == 0 && len(w.unwritten) <= CS && cap(w.unwritten) == ECS && bytes12(w.nonce) && (w.err == nil ==> w.nonce[11] == 0) && w.dst != nil && w.a != nil
@@ -110,7 +110,7 @@ package stream
 //@   call Write#1 requires arg0 == w.dst                                                                             [C13]
 //@   ensures#out err == nil ==> w.dst.$out == cat(old(w.dst.$out), seal(w.a.$key, nonceOf(old(ctr(w.nonce)), (last ? 1 : 0)), old(bytes(w.unwritten))))   [C01 C05 C12 C13]
 //@   ensures#prefix exists k in 0..len(old(w.unwritten))+17 :: w.dst.$out == cat(old(w.dst.$out), sub(seal(w.a.$key, nonceOf(old(ctr(w.nonce)), (last ? 1 : 0)), old(bytes(w.unwritten))), 0, k))   [C13]
-//@   ensures#state len(w.unwritten) == 0 && ctr(w.nonce) == old(ctr(w.nonce)) + 1 && w.nonce[11] == (last ? 1 : 0)    [C02 C05 C06 C12]
+//@   ensures#state len(w.unwritten) == 0 && ctr(w.nonce) == old(ctr(w.nonce)) + 1 && w.nonce[11] == (last ? 1 : 0)    [C01 C02 C05 C06 C12]
 //@   ensures#inv rg(w.unwritten) == rg(w.buf) && off(w.unwritten) == 0 && cap(w.unwritten) == ECS && bytes12(w.nonce) && w.err == old(w.err) && w.dst == old(w.dst) && w.a == old(w.a)
 //@   modifies w.unwritten, w.buf, w.nonce, w.dst.$out, w.dst.$wn
 
@@ -118,18 +118,18 @@ package stream
 //@   requires#inv winv(w) && disjoint(p, w.buf) && disjoint(p, w.nonce)
 //@   requires#chunks ctr(w.nonce) + (len(w.unwritten) + len(p)) / CS < MAXCTR                                        [C14]
 //@   loop 1 invariant winv(w) && w.err == nil && 0 <= len(p) && len(p) <= total && total == len(old(p)) && rg(p) == rg(old(p)) && off(p) + len(p) == off(old(p)) + len(old(p)) && w.dst == old(w.dst) && w.a == old(w.a)
-//@   loop 1 invariant#count old(len(w.unwritten)) + (total - len(p)) == CS * (ctr(w.nonce) - old(ctr(w.nonce))) + len(w.unwritten)       [C06 C12]
-//@   loop 1 invariant#shape ((total - len(p) > 0 && len(p) > 0) ==> len(w.unwritten) == 0) && ((total - len(p) > 0 && len(p) == 0) ==> len(w.unwritten) > 0)   [C12]
+//@   loop 1 invariant#count old(len(w.unwritten)) + (total - len(p)) == CS * (ctr(w.nonce) - old(ctr(w.nonce))) + len(w.unwritten)       [C01 C05 C06 C12]
+//@   loop 1 invariant#shape ((total - len(p) > 0 && len(p) > 0) ==> len(w.unwritten) == 0) && ((total - len(p) > 0 && len(p) == 0) ==> len(w.unwritten) > 0)   [C01 C05 C12]
 //@   loop 1 invariant#chunks ctr(w.nonce) + (len(w.unwritten) + len(p)) / CS < MAXCTR                                 [C14]
 //@   loop 1 decreases 2 * len(p) + (len(w.unwritten) == CS ? 1 : 0)
 //@   ensures#inv winv(w)
-//@   ensures#full err == nil ==> n == len(p)                                                                          [C12 C13]
+//@   ensures#full err == nil ==> n == len(p)                                                                          [C01 C05 C12 C13]
 //@   ensures#sticky old(w.err) != nil ==> n == 0 && err == old(w.err) && w.err == old(w.err) && w.dst.$out == old(w.dst.$out)   [C13]
 //@   ensures#stored err != nil ==> w.err == err && n == 0                                                             [C13]
 //@   ensures#live err == nil ==> w.err == nil                                                                         [C13]
-//@   ensures#empty (len(p) == 0 && old(w.err) == nil) ==> err == nil && w.dst.$out == old(w.dst.$out) && len(w.unwritten) == len(old(w.unwritten)) && ctr(w.nonce) == old(ctr(w.nonce))   [C12]
-//@   ensures#holdback (err == nil && len(p) > 0) ==> len(w.unwritten) > 0 && len(w.unwritten) <= CS                   [C12]
-//@   ensures#count (err == nil && len(p) > 0) ==> old(len(w.unwritten)) + len(p) == CS * (ctr(w.nonce) - old(ctr(w.nonce))) + len(w.unwritten)   [C06 C12]
+//@   ensures#empty (len(p) == 0 && old(w.err) == nil) ==> err == nil && w.dst.$out == old(w.dst.$out) && len(w.unwritten) == len(old(w.unwritten)) && ctr(w.nonce) == old(ctr(w.nonce))   [C01 C05 C12]
+//@   ensures#holdback (err == nil && len(p) > 0) ==> len(w.unwritten) > 0 && len(w.unwritten) <= CS                   [C01 C05 C12]
+//@   ensures#count (err == nil && len(p) > 0) ==> old(len(w.unwritten)) + len(p) == CS * (ctr(w.nonce) - old(ctr(w.nonce))) + len(w.unwritten)   [C01 C05 C06 C12]
 //@   modifies w.unwritten, w.buf, w.nonce, w.err, w.dst.$out, w.dst.$wn
 
 //@ func (*Writer).Close(w) (err)
@@ -138,7 +138,7 @@ package stream
 //@   ensures#sticky old(w.err) != nil ==> err == old(w.err) && w.err == old(w.err) && w.dst.$out == old(w.dst.$out)   [C13]
 //@   ensures#closed w.err != nil                                                                                      [C06 C13]
 //@   ensures#final (old(w.err) == nil && err == nil) ==> w.dst.$out == cat(old(w.dst.$out), seal(w.a.$key, nonceOf(old(ctr(w.nonce)), 1), old(bytes(w.unwritten))))   [C01 C05 C12 C13]
-//@   ensures#flag old(w.err) == nil ==> w.nonce[11] == 1 && ctr(w.nonce) == old(ctr(w.nonce)) + 1                     [C02 C05 C06]
+//@   ensures#flag old(w.err) == nil ==> w.nonce[11] == 1 && ctr(w.nonce) == old(ctr(w.nonce)) + 1                     [C01 C02 C05 C06]
 //@   ensures#errret (old(w.err) == nil && err != nil) ==> w.err == err                                                [C13]
 //@   modifies w.unwritten, w.buf, w.nonce, w.err, w.dst.$out, w.dst.$wn
 
